@@ -18,14 +18,15 @@ def run(ctx):
         ctx.tlc_mc(fam, "QueueWake", "QueueWake_MC_big.cfg", workers=16, timeout=3000, heap="16g")
         ctx.tlc_mc(fam, "QueueWake", "QueueWake_MC_live_big.cfg", workers=16, timeout=3000, heap="16g")
         ctx.tlc_mc(fam, "PriWake", "PriWake_MC_big.cfg", workers=16, timeout=3000)
-    pdir, plans = ctx.tlc_plans(fam, "QueueWake_Gen", "QueueWake_Gen.cfg", num=ctx.q(300, 2500), depth=18)
-    ppdir, pplans = ctx.tlc_plans(fam, "PriWake_Gen", "PriWake_Gen.cfg", num=ctx.q(150, 1500), depth=22,
+    pdir, plans = ctx.tlc_plans(fam, "QueueWake_Gen", "QueueWake_Gen.cfg", num=ctx.q(200, 2500), depth=18)
+    ppdir, pplans = ctx.tlc_plans(fam, "PriWake_Gen", "PriWake_Gen.cfg", num=ctx.q(120, 1500), depth=22,
                                   sub="pplans", seed_off=1)
     binary = ctx.go_build("c13")
     ctx.harness(binary, ["-plans", pdir, "-pplans", ppdir, "-out", ctx.path("wake.ndjson"),
                          "-pout", ctx.path("priwake.ndjson"), "-stress", ctx.path("stress.ndjson"),
                          "-pstress", ctx.path("pstress.ndjson"), "-seed", ctx.seed,
-                         "-rand", ctx.q(100, 1000), "-prand", ctx.q(60, 600), "-nstress", ctx.q(4, 100)],
+                         "-rand", ctx.q(70, 1000), "-prand", ctx.q(50, 600), "-nstress", ctx.q(4, 100),
+                         "-race", ctx.q(700, 3000), "-prace", ctx.q(100, 1500), "-npstress", ctx.q(60, 600)],
                 traces=[ctx.path("wake.ndjson"), ctx.path("priwake.ndjson"), ctx.path("stress.ndjson"),
                         ctx.path("pstress.ndjson")])
     wake = ctx.load_traces(ctx.path("wake.ndjson"))
@@ -52,6 +53,12 @@ def run(ctx):
         "quiescence only afterwards; the trace spec applies the calls one by one with Wake steps in "
         "between in any order; priq: pushn/popn (k calls back to back) and gateall (all gated calls "
         "released together)",
+        "race steps: 2-5 calls (1-4 consumers entering Pop/PopAnyway plus close / adds / both; priq: a "
+        "token-holding consumer's Pop with Len() pollers, pushers on a full queue, other poppers) run on "
+        "different goroutines released together by a spin barrier with seeded skews, quiescence only "
+        "afterwards; the trace spec applies the calls (priq: their halves) in ANY order with Wake steps in "
+        "between; race rounds run in lock-step batches of 20 fresh queues per quiescence",
+        "priq stress includes Len() pollers and pushers rejected by a full queue (never retried)",
         "what is issued is decided by the harness's own count model of the property (qa.Model), never by "
         "the implementation's replies",
         "priq mid-call states are reached through verifGate (build tag verif) before tyrSignal in Push/Pop; "
